@@ -23,6 +23,7 @@ import Nebula.Model.CertV1
 import Nebula.Model.CertV2
 import Nebula.Model.P256Sig
 import Nebula.Driver.Certverify
+import Nebula.Driver.CertPemOps
 
 namespace Nebula.Driver.Certcodec
 open Nebula.Driver Nebula.Net Nebula.Cert Nebula.Driver.Certsign
@@ -224,7 +225,7 @@ def step (s : Unit) (args : List String) (impl : String) : Unit × Out :=
       let verdict := if impl.startsWith "differs" then s!"bad copy-differs {impl}" else "ok"
       (s, { model := m, verdict := verdict, tag := if m == "same" then "copy:same" else "triv:copy-undecodable" })
     | _, _ => (s, badOp)
-  | _ => (s, badOp)
+  | _ => (s, CertPemOps.pemStep args impl)   -- the PEM layer: Driver/CertPemOps.lean
 
 def main : IO Unit := runEngine () step
 
